@@ -62,6 +62,26 @@ def load_census():
     return c
 
 
+class MapNode(__import__("collections.abc").abc.Mapping):
+    """a self-rendering node that also implements the Mapping interface (a record / dataset-like component); it is not a dict,
+    so it is a child, never an attribute map"""
+
+    def __init__(self, **kw):
+        self.d = kw
+
+    def __getitem__(self, k):
+        return self.d[k]
+
+    def __iter__(self):
+        return iter(self.d)
+
+    def __len__(self):
+        return len(self.d)
+
+    def _repr_html_(self):
+        return "<table>map</table>"
+
+
 def rand_args(rng):
     """arbitrary argument list: children, attribute dicts, keyword attributes"""
     args = []
@@ -188,6 +208,14 @@ def run(tier: str) -> int:
                 if a2 is a1 or len(a2.children) != 1:
                     ck.py_violation(line, str(a2), f"{mname}.{name}('c', **{kwargs}) shares state between calls")
                     break
+            mp = MapNode(title="t", id="m")
+            tm = f("a", mp, {"lang": "en"})
+            ck.holds_checked += 1
+            if not any(c is mp for c in tm.children) or dict(tm.attrs) != {"lang": "en"} or "<table>map</table>" not in str(tm):
+                ck.py_violation(line, str(tm), f"{mname}.{name}('a', node, {{'lang': 'en'}}) where node is a self-rendering object that implements Mapping (not a dict): "
+                                f"children {list(tm.children)!r}, attrs {dict(tm.attrs)!r}; the node is a child and only the dict gives attributes",
+                                py=f"class MapNode(collections.abc.Mapping): ...  # with _repr_html_\nhtmltools.{mname}.{name}('a', MapNode(title='t', id='m'), {{'lang': 'en'}})")
+                continue
             for b in (True, False):
                 if f(_add_ws=b).add_ws is not b:
                     ck.py_violation(line, "", f"{mname}.{name}(_add_ws={b}) not honoured")
